@@ -6,6 +6,9 @@ import Proofs.RdataName
 import Proofs.RdataCodec
 import Proofs.RdataSound
 import Proofs.RdataTable
+import Proofs.RdataLoc
+import Proofs.RdataSvcb
+import Proofs.RdataApl
 /-!
 # C02 — every record type's wire form round-trips and re-encodes byte-identically
 
@@ -114,6 +117,85 @@ theorem regular_types_fixpoint : ∀ e ∈ table, e.custom = none → ∀ (o : O
     simp [Entry.decode, Entry.encode, Entry.pre, Entry.post, hc, hfix pfx']
   refine ⟨h1, fun v' h2 => ?_⟩
   rw [h1] at h2; simp at h2; subst h2; rfl
+
+/-- decode–encode–decode fixed point through an object-level view: if the raw record rebuilt from the view of a
+valid raw record is valid and its own view rebuilds the same raw record (`hpp`), then for every accepted octet
+string the encoding of the decoded object decodes again, and what comes out encodes to the same octets. -/
+theorem custom_fixpoint (e : Entry) (o : Option Name) (hwf : wf e.schema = true)
+    (hpp : ∀ r w, valid e.schema o r = true → e.post r = some w →
+      valid e.schema o (e.pre w) = true ∧ ∃ w', e.post (e.pre w) = some w' ∧ e.pre w' = e.pre w)
+    (pfx rdata : Bytes) (v : Val) (hoct : OctetsOkB rdata) (hN : NameSound o)
+    (h : e.decode o pfx rdata = .ok v) (pfx' : Bytes) :
+    ∃ v', e.decode o pfx' (e.encode o v) = .ok v' ∧ e.encode o v' = e.encode o v := by
+  unfold Entry.decode at h
+  split at h
+  · simp at h
+  · rename_i r hr
+    split at h
+    · rename_i w hw
+      simp at h; subst h
+      obtain ⟨hv, _⟩ := dec_fixpoint e.schema o pfx rdata r hwf hoct hN hr
+      obtain ⟨hv', w', hp, he⟩ := hpp r w hv hw
+      refine ⟨w', ?_, ?_⟩
+      · simp [Entry.decode, Entry.encode, decode_encode e.schema o (e.pre w) hwf hv' pfx', hp]
+      · simp [Entry.encode, he]
+    · simp at h
+
+/-- LOC (sizes `base·10^exp`, coordinates as degrees/minutes/seconds/milliseconds/hemisphere): the decoded object
+is reproduced exactly by decoding its own encoding -/
+theorem loc_fixpoint (o : Option Name) (pfx rdata : Bytes) (v : Val) (hoct : OctetsOkB rdata) (hN : NameSound o)
+    (h : (lookup 1 29).decode o pfx rdata = .ok v) (pfx' : Bytes) :
+    (lookup 1 29).decode o pfx' ((lookup 1 29).encode o v) = .ok v := by
+  have hwf := lookup_wf 1 29
+  unfold Entry.decode at h
+  split at h
+  · simp at h
+  · rename_i r hr
+    split at h
+    · rename_i w hw
+      simp at h; subst h
+      obtain ⟨hv, _⟩ := dec_fixpoint (lookup 1 29).schema o pfx rdata r hwf hoct hN hr
+      obtain ⟨a, b⟩ := loc_pre_post o r w hv hw
+      have b' : (lookup 1 29).post ((lookup 1 29).pre w) = some w := b
+      simp [Entry.decode, Entry.encode, decode_encode (lookup 1 29).schema o ((lookup 1 29).pre w) hwf a pfx', b']
+    · simp at h
+
+/-- SVCB and HTTPS (ascending keys, a repeated key keeps its last value, AliasMode without parameters, mandatory
+keys present): the decoded object is reproduced exactly by decoding its own encoding -/
+theorem svcb_fixpoint (t : Nat) (ht : t = 64 ∨ t = 65) (o : Option Name) (pfx rdata : Bytes) (v : Val)
+    (hoct : OctetsOkB rdata) (hN : NameSound o)
+    (h : (lookup 1 t).decode o pfx rdata = .ok v) (pfx' : Bytes) :
+    (lookup 1 t).decode o pfx' ((lookup 1 t).encode o v) = .ok v := by
+  have key : ∀ e : Entry, wf e.schema = true → e.schema = svcbSchema → e.custom = some ⟨svcbPost, id⟩ →
+      e.decode o pfx rdata = .ok v → e.decode o pfx' (e.encode o v) = .ok v := by
+    intro e hwf hs hc h
+    unfold Entry.decode at h
+    split at h
+    · simp at h
+    · rename_i r hr
+      split at h
+      · rename_i w hw
+        simp at h; subst h
+        obtain ⟨hv, _⟩ := dec_fixpoint e.schema o pfx rdata r hwf hoct hN hr
+        have hw' : svcbPost r = some w := by simpa [Entry.post, hc] using hw
+        rw [hs] at hv
+        obtain ⟨a, b⟩ := svcb_post_post o r w hv hw'
+        have hpre : e.pre w = w := by simp [Entry.pre, hc]
+        simp [Entry.decode, Entry.encode, hpre, hs, decode_encode svcbSchema o w (by rw [← hs]; exact hwf) a pfx',
+          Entry.post, hc, b]
+      · simp at h
+  rcases ht with rfl | rfl
+  · exact key _ (lookup_wf 1 64) rfl rfl h
+  · exact key _ (lookup_wf 1 65) rfl rfl h
+
+/-- APL (IPv4/IPv6 prefixes kept padded, other families as they came, trailing zero octets not transmitted):
+the encoding of a decoded object is a fixed point of decode-then-encode -/
+theorem apl_fixpoint (o : Option Name) (pfx rdata : Bytes) (v : Val) (hoct : OctetsOkB rdata) (hN : NameSound o)
+    (h : (lookup 1 42).decode o pfx rdata = .ok v) (pfx' : Bytes) :
+    ∃ v', (lookup 1 42).decode o pfx' ((lookup 1 42).encode o v) = .ok v' ∧
+      (lookup 1 42).encode o v' = (lookup 1 42).encode o v :=
+  custom_fixpoint (lookup 1 42) o (lookup_wf 1 42) (fun r w hr hw => apl_pre_post o r w hr hw)
+    pfx rdata v hoct hN h pfx'
 
 /-- *"(and unknown types in RFC 3597 generic form)"*: a (class, type) without a table entry is handled by the
 generic entry, whose codec is the identity on the octets. -/
